@@ -1,6 +1,7 @@
 import SJ.Drv.Mach
 import SJ.Drv.C03
 import SJ.Model.IoFault
+import SJ.Model.IoKind
 import SJ.Model.Write
 import SJ.Model.WriteTrace
 import SJ.Spec.Utf8
@@ -16,6 +17,19 @@ def judgeFault (kind o oeof : String) : List String :=
   else if o == s!"IO:{kind}" then []
   else if o == oeof && ((oeof.splitOn ":").getD 2 "" == "syntax" || (oeof.splitOn ":").getD 2 "" == "data") then []
   else [s!"C13 reader failing with {kind}: got {o}; the same bytes followed by end of input give {oeof}"]
+
+/-- an `ErrorKind` name of the harness as `Model.Write.Kind` (an opaque tag: the name's bytes in base 256) and back -/
+def ioErrorOfName (name : String) : Model.Write.IoError :=
+  { kind := .other (name.toUTF8.toList.foldl (fun acc b => acc * 256 + b.toNat) 0) }
+def nameOfKind : Model.Write.Kind → String
+  | .interrupted => "Interrupted"
+  | .writeZero => "WriteZero"
+  | .other tag =>
+    let rec go (fuel n : Nat) (acc : List UInt8) : List UInt8 :=
+      match fuel with
+      | 0 => acc
+      | fuel + 1 => if n == 0 then acc else go fuel (n / 256) (UInt8.ofNat (n % 256) :: acc)
+    String.fromUTF8! (ByteArray.mk (go 64 tag []).toArray)
 
 /-- `rfault <cfg> <tgt> <kind> <k> <hex doc> => <outcome>|<outcome with clean EOF>|<fault delivered>` (Value / IgnoredAny) -/
 def rfault : Handler := fun args impl =>
@@ -37,9 +51,14 @@ def rfault : Handler := fun args impl =>
     match tgtOfTag t, ks.toNat?, bytesOfHex h with
     | some tgt, some k, some bs =>
       let env : Env := { cfg := cfgOfTag c, src := .reader, tgt := tgt }
-      let m := match parseFault env (bs.take k) with
-        | .io => s!"IO:{kind}"
-        | .err code idx =>
+      -- the reader's error travels through the model (`Model.IoKind.parseFaultK`): `IO:<kind>` is printed from what
+      -- `io_error_kind()` returns for the model's outcome, not echoed from the case line
+      let j := Model.IoKind.parseFaultK (ioErrorOfName kind) env (bs.take k)
+      let m := match j with
+        | .io _ => (match j.ioErrorKind with
+                    | some kd => s!"IO:{nameOfKind kd}"
+                    | none => "IO:?")
+        | .other code idx =>
           let (l, col) := lineCol bs idx
           s!"E:{hexOfBytes (Gen.message code)}:{catName (Gen.classify code)}:{l}:{col}"
       match impl.splitOn "|" with
